@@ -175,6 +175,27 @@ func genC08(tier, out string, sum *Summary) {
 			sum.direct("category", af.expr, af.doc, "an argument fails with "+want+" but the call returns "+describe(o))
 		}
 	}
+	// two faults in one call: an argument outside the signature decides (invalid-type), whatever is wrong with the
+	// VALUE of another argument
+	for _, tf := range []struct{ expr, want string }{
+		{"pad_left('abc', `-1`, `1`)", "CInvalidType"}, {"pad_left('abc', `1.5`, `[]`)", "CInvalidType"}, {"pad_right('abc', `-1`, `1`)", "CInvalidType"}, {"pad_right('abc', `1.5`, `{}`)", "CInvalidType"},
+		{"pad_left(`1`, `-1`)", "CInvalidType"}, {"pad_right(`1`, `1.5`, 'x')", "CInvalidType"}, {"pad_left('a', `-1`, '')", "CInvalidValue"}, {"pad_left('a', `2`, 'xy')", "CInvalidValue"}, {"pad_left('a', 'x', 'xy')", "CInvalidType"},
+		{"split(`1`, ',', `-1`)", "CInvalidType"}, {"split('a', `1`, `-1`)", "CInvalidType"}, {"split('a', ',', `1.5`)", "CInvalidValue"}, {"split('a', ',', `-1`)", "CInvalidValue"}, {"split('a', `1`, `1.5`)", "CInvalidType"},
+		{"replace(`1`, 'a', 'b', `-1`)", "CInvalidType"}, {"replace('a', `1`, 'b', `-1`)", "CInvalidType"}, {"replace('a', 'a', `1`, `-1`)", "CInvalidType"}, {"replace('a', 'a', 'b', `1.5`)", "CInvalidValue"}, {"replace('a', 'a', 'b', `-1`)", "CInvalidValue"},
+		{"find_first(`1`, 'a', `1.5`)", "CInvalidType"}, {"find_first('a', `1`, `1.5`)", "CInvalidType"}, {"find_first('a', 'a', `1.5`, 'x')", "CInvalidType"}, {"find_last('a', 'a', `1.5`, `[]`)", "CInvalidType"}, {"find_last('a', 'a', 'x', `1.5`)", "CInvalidType"},
+		{"find_first('a', 'a', `1.5`)", "CInvalidValue"}, {"find_last('a', 'a', `0`, `1.5`)", "CInvalidValue"}, {"from_items(`[[1, 2], 3]`)", "CInvalidType"}, {"from_items(`[[\"a\", 1, 2], 3]`)", "CInvalidType"}, {"from_items(`[[1, 2]]`)", "CInvalidValue"},
+		{"pad_left(s, n, a)", "CInvalidType"}, {"pad_right(s, f, a)", "CInvalidType"}, {"split(n, s, f)", "CInvalidType"}, {"replace(s, s, s, f)", "CInvalidValue"}, {"replace(s, a, s, f)", "CInvalidType"}} {
+		sum.count("two-faults")
+		check(tf.expr, map[string]any{"s": "abc", "n": json.Number("-1"), "f": json.Number("1.5"), "a": []any{}}, tf.want, false)
+	}
+	for _, h := range []string{"+041", "-041", " 041", "0x41", "_041", "004", "00g1", "+fff"} {
+		for _, form := range []string{"\"\\u%s\"", "a.\"\\u%s\"", "{\"\\u%s\": a}", "length(\"\\u%s\")", "\"\\ud83d\\u%s\""} {
+			sum.count("escape-faults")
+			for _, d := range docs[:2] {
+				check(fmt.Sprintf(form, h), d, "CSyntax", true)
+			}
+		}
+	}
 	// every combination of two constructs with failing operands: whatever fails obeys the contract (nil result,
 	// exactly one category, Compile = Search for static faults, compiled expressions never report static ones)
 	for i, sc := range smallScope(ssCfg{funcs: true, lets: true, errs: true, bools: true}, 1, 2000) {
